@@ -239,15 +239,40 @@ class Interp:
         self.init_heap = stable
         # values self.state can take
         vals = set()
+
+        def value_attrs(v, fnode, depth=0):
+            """Attribute names an expression may denote: x.A, a conditional expression over such, or a local assigned from such."""
+            if isinstance(v, ast.Attribute):
+                return {v.attr}
+            if isinstance(v, ast.IfExp):
+                return value_attrs(v.body, fnode, depth) | value_attrs(v.orelse, fnode, depth)
+            if isinstance(v, ast.Name) and depth < 3:
+                out = set()
+                for m in ast.walk(fnode):
+                    if isinstance(m, ast.Assign) and any(isinstance(t, ast.Name) and t.id == v.id for t in m.targets):
+                        out |= value_attrs(m.value, fnode, depth + 1)
+                return out
+            return set()
+        setters = {}        # function name -> index of the parameter it stores into .state (a state-transition helper)
         for f in self.prog.funcs.values():
             for n in ast.walk(f.node):
                 if isinstance(n, ast.Assign):
                     for t in n.targets:
                         if isinstance(t, ast.Attribute) and t.attr == "state":
-                            arms = [n.value.body, n.value.orelse] if isinstance(n.value, ast.IfExp) else [n.value]
-                            for v in arms:
-                                if isinstance(v, ast.Attribute):
-                                    vals.add(v.attr)
+                            vals |= value_attrs(n.value, f.node)
+                            if isinstance(n.value, ast.Name) and n.value.id in f.params:
+                                setters[f.name] = f.params.index(n.value.id) - (1 if f.params and f.params[0] == "self" else 0)
+        if setters:
+            for f in self.prog.funcs.values():
+                for n in ast.walk(f.node):
+                    if isinstance(n, ast.Call):
+                        nm = n.func.attr if isinstance(n.func, ast.Attribute) else (n.func.id if isinstance(n.func, ast.Name) else None)
+                        if nm in setters:
+                            i = setters[nm]
+                            if 0 <= i < len(n.args):
+                                vals |= value_attrs(n.args[i], f.node)
+                            for kw in n.keywords:
+                                vals |= value_attrs(kw.value, f.node)
         self.state_values = vals
         return p
 
